@@ -5,7 +5,12 @@ from vcore import Case, Harness
 ID = 'C11'
 GEN = ['SpinLock', 'Ring']
 LEAN_TARGETS = ['OtelVerif.Props.C11']
-THEOREMS = ['Otel.Ring.consumed_is_log_prefix', 'Otel.Ring.size_le_max', 'Otel.Ring.never_consumes_empty']
+THEOREMS = ['Otel.C11.' + t for t in (
+    'gen_ring', 'consumed_is_log_prefix', 'log_nodup', 'consumed_at_most_once', 'drained_all', 'no_empty_slot_consumed',
+    'per_producer_fifo', 'failed_not_accepted', 'failed_not_in_buffer', 'element_accounting', 'size_le_capacity',
+    'add_fails_only_when_full', 'fail_step_records', 'fine_reachable', 'fine_consume_contract', 'mutual_exclusion',
+    'holder_sets_flag', 'tryLock_sound', 'no_entry_when_locked', 'acquire_only_when_free', 'lock_solo_progress')] + [
+    'Otel.Ring.reachable_inv', 'Otel.RingFine.reach_finv', 'Otel.SpinLock.inv_run']
 SHIM = ['-include', 'harness/shim/detsched.h', '-DNDEBUG']
 HARNESSES = [Harness('d_c11', ['harness/d_c11.cc'], flags=SHIM, includes=('api/include', 'sdk/include'),
                      plain_srcs=['harness/shim/detsched.cc'])]
@@ -262,6 +267,17 @@ def nontrivial(case, out):
     return len({t.rstrip('!') for t in toks}) >= 2
 
 
-LEVEL_TEXT = ('Lean 4: one inductive invariant (15 conjuncts) over the small-step model of CircularBuffer::Add/Consume with any number of producers, spurious weak-CAS failures included, gives for every schedule: consumed = prefix of the commit log (each element at most once, commit order), size <= max_size, no empty slot consumed; ghost bookkeeping and the spin lock are being added. The model is stepped in lock-step with the UNMODIFIED headers under a deterministic scheduler shim: every atomic access of every schedule is compared.')
-LEVEL_NOTE = ('Trusted: Lean kernel; the scheduler shim (sequentially consistent, one atomic access per step); fairness. Not modelled: C++ weak-memory orders; 64-bit counter wrap.')
+LEVEL_TEXT = ('Lean 4: inductive invariants (Ring.Inv 15 conjuncts + ghost Inv2 9 conjuncts) over the small-step model of '
+              'CircularBuffer::Add/Consume - any number of producers, any capacity, every schedule, spurious weak-CAS '
+              'failures - give: consumed = prefix of the commit log (at most once, commit order; all of it once drained), '
+              'per-producer FIFO, a failed Add is in no slot / not committed / not consumed (element accounting: exactly one '
+              'place per element), size <= max_size, failure justification (Adds begun before the return minus consumed '
+              'before the start >= max_size), no empty slot consumed, Consume contract always met by the fine-grained '
+              'consumer; spin lock: mutual exclusion, try_lock sound, entry only when the flag read free, solo progress '
+              'in <= 3 steps. The models are stepped in lock-step with the UNMODIFIED headers under a deterministic '
+              'scheduler shim: every atomic access of every generated schedule is compared, plus an implementation-side oracle.')
+LEVEL_NOTE = ('Trusted: Lean kernel (axioms propext, Classical.choice, Quot.sound); the scheduler shim (sequentially consistent '
+              'atomics, one access per step); tools/gen_c11.py structure markers. Partial: C++ relaxed/acquire/release '
+              'orders are not modelled (SC only); starvation-freedom of the spin lock is not claimed (solo progress only); '
+              '64-bit counter wrap-around.')
 DESIGN_REF = 'DESIGN.md section 4, C11; Appendix A'
